@@ -134,7 +134,20 @@ def r19b(ctx: Context) -> None:
             adds += 1
             akey = func_key(func, node)
             if node.func.attr == "update":
-                rule.fail(akey, where(func, node), "files are added in bulk without passing the eligibility predicate one by one")
+                bulk = node.args[0] if node.args else None
+                filtered = False
+                if isinstance(bulk, (ast.GeneratorExp, ast.ListComp, ast.SetComp)):
+                    element_names = names_read(bulk.elt)
+                    for generator in bulk.generators:
+                        for condition in generator.ifs:
+                            for call in [c for c in ast.walk(condition) if isinstance(c, ast.Call)]:
+                                site = site_for(prog, func, call)
+                                if site and eligible in site.targets and call.args and names_read(call.args[0]) & element_names:
+                                    filtered = True
+                if filtered:
+                    rule.ok(akey, "every element of the bulk add passed the eligibility predicate (comprehension filter)")
+                else:
+                    rule.fail(akey, where(func, node), "files are added in bulk without passing the eligibility predicate one by one")
                 continue
             added = node.args[0]
             added_names = names_read(added)
@@ -409,13 +422,13 @@ def r19h(ctx: Context) -> None:
 
     def plain_name(func: FuncInfo, expr: ast.AST, depth: int) -> bool:
         """a file name listed by os.walk (third element of its tuples)"""
-        if isinstance(expr, ast.Name) and depth < 6:
+        if isinstance(expr, ast.Name) and depth < 30:
             binds = bindings(func, expr.id)
             return bool(binds) and all(kind == "element" and walk_files(func, it, depth + 1) for kind, it in binds)
         return False
 
     def walk_files(func: FuncInfo, expr: ast.AST, depth: int) -> bool:
-        if isinstance(expr, ast.Name) and depth < 6:
+        if isinstance(expr, ast.Name) and depth < 30:
             binds = bindings(func, expr.id)
             return bool(binds) and all(kind == "element[2]" and is_walk(func, it, depth + 1) for kind, it in binds)
         return False
@@ -427,7 +440,7 @@ def r19h(ctx: Context) -> None:
         return dotted(expr) in ("os.sep", "os.altsep", "os.path.sep") or (isinstance(expr, ast.Constant) and expr.value in ("/", "\\"))
 
     def canonical(func: FuncInfo, expr: ast.AST, depth: int = 0) -> bool:
-        if depth > 8:
+        if depth > 24:
             return False
         if isinstance(expr, ast.Call):
             name = dotted(expr.func) or ""
@@ -455,6 +468,9 @@ def r19h(ctx: Context) -> None:
             binds = bindings(func, expr.id)
             if not binds:
                 return False
+            if all(kind == "element" for kind, _ in binds) and not plain_name(func, expr, depth):
+                # an element of a local collection: canonical when everything put into that collection is
+                return all(elements_canonical(func, iterable, depth + 1) for _kind, iterable in binds)
             visiting.add(expr.id)
             try:
                 return all_bindings_canonical(func, binds, depth)
@@ -463,6 +479,18 @@ def r19h(ctx: Context) -> None:
         return False
 
     visiting: Set[str] = set()
+
+    def elements_canonical(func: FuncInfo, iterable: ast.AST, depth: int) -> bool:
+        if depth > 24:
+            return False
+        if isinstance(iterable, (ast.ListComp, ast.GeneratorExp, ast.SetComp)):
+            return canonical(func, iterable.elt, depth + 1)
+        if isinstance(iterable, (ast.List, ast.Tuple, ast.Set)):
+            return all(canonical(func, e, depth + 1) for e in iterable.elts)
+        if isinstance(iterable, ast.Name):
+            binds = bindings(func, iterable.id)
+            return bool(binds) and all(kind == "value" and elements_canonical(func, value, depth + 1) for kind, value in binds)
+        return False
 
     def all_bindings_canonical(func: FuncInfo, binds: List[Tuple[str, ast.AST]], depth: int) -> bool:
         for kind, value in binds:
@@ -479,10 +507,11 @@ def r19h(ctx: Context) -> None:
     for func in scanner.methods.values():
         set_params = sorted(carriers.get(func.qualname, set()))
         for node in walk_local(func.node):
-            if not (isinstance(node, ast.Call) and isinstance(node.func, ast.Attribute) and node.func.attr == "add" and isinstance(node.func.value, ast.Name) and node.func.value.id in set_params and node.args):
+            if not (isinstance(node, ast.Call) and isinstance(node.func, ast.Attribute) and node.func.attr in ("add", "update") and isinstance(node.func.value, ast.Name) and node.func.value.id in set_params and node.args):
                 continue
             key = func_key(func, node) + " [spelling]"
-            if canonical(func, node.args[0]):
+            spelled = elements_canonical(func, node.args[0], 0) if node.func.attr == "update" else canonical(func, node.args[0])
+            if spelled:
                 rule.ok(key, "normalised before it is added")
             else:
                 rule.fail(key, where(func, node), f"'{norm(node.args[0])}' enters the set of files as the user spelled it: the same file reached through another spelling ('./d/a.md', 'd//a.md', a directory next to a file argument) is selected and processed twice")
